@@ -546,7 +546,7 @@ func (g *gen) selOmit(o *op, modes []string, prefer []int) {
 
 var (
 	modesUpdate  = []string{"none", "none", "none", "none", "sel", "sel", "sel", "star", "omit", "omit", "omit", "star+omit", "sel+omit", "omit-star"}
-	modesSave    = []string{"none", "none", "none", "sel", "sel", "omit", "omit", "star+omit", "sel+omit"}
+	modesSave    = []string{"none", "none", "none", "sel", "sel", "omit", "omit", "star", "star+omit", "sel+omit"}
 	modesCreate  = []string{"none", "none", "none", "sel", "omit", "omit", "star", "star+omit", "sel+omit"}
 	modesOmit    = []string{"none", "none", "omit"}
 	modesNothing = []string{"none"}
@@ -569,7 +569,10 @@ func (g *gen) target(o *op, structForm, single bool) {
 		forms = append(forms, "value-is-model", "value-is-model+where", "value-is-model+model")
 	}
 	if single {
-		forms = []string{"model-key", "model-key+where"}
+		forms = []string{"model-key", "model-key", "model-key+where"}
+		if structForm {
+			forms = append(forms, "value-is-model", "value-is-model+where", "value-is-model+model")
+		}
 	}
 	o.tform = core.Pick(r, forms)
 	o.useModel = true
